@@ -77,6 +77,7 @@ const (
 	opRetx   opKind = 'r' // a copy of the peer's final handshake datagram arrives
 	opUpdate opKind = 'k' // UpdateKeys (1.3 only)
 	opFail   opKind = 'f' // the transport fails this endpoint's next WriteTo (transient local send error); at most once per burst
+	opLate   opKind = 'g' // the transport forwards this endpoint's next datagram and THEN reports an error (the error does not prove that the datagram stayed)
 	opClose  opKind = 'x' // Close (close_notify); always last
 )
 
@@ -219,6 +220,8 @@ func c09Run(t *testing.T, p *world.PKI, cc cfgCase, clientSends bool, seq string
 				}))
 			case opFail:
 				x.PC.FailNextWrites(1, errors.New("injected transient send error"))
+			case opLate:
+				x.PC.FailNextWritesAfterSend(1, errors.New("injected send error reported after the datagram left"))
 			case opClose:
 				ops = append(ops, w.GoNoSkew("Close", func(*world.Op) error { return x.Conn.Close() }))
 			}
@@ -527,9 +530,9 @@ func TestC09(t *testing.T) {
 	p := world.GetPKI(t)
 	var cases []run.Case
 	for _, cc := range configs(env.Thorough()) {
-		alpha := []opKind{opWriteA, opWriteB, opWriteC, opRetx, opFail, opClose}
+		alpha := []opKind{opWriteA, opWriteB, opWriteC, opRetx, opFail, opLate, opClose}
 		if cc.v.V13 {
-			alpha = []opKind{opWriteA, opWriteB, opWriteC, opRetx, opUpdate, opFail, opClose}
+			alpha = []opKind{opWriteA, opWriteB, opWriteC, opRetx, opUpdate, opFail, opLate, opClose}
 		}
 		depth := 3
 		if env.Thorough() {
